@@ -138,8 +138,12 @@ static void c07_case(const KeyCfg *k, int be, int nblk, int dir, int family, int
     memset(out_[0], 0xEE, n + 48);
     {
         static uint8_t img1[2048], img2[2048]; size_t l1 = par_image(k->c, &o, img1, sizeof(img1)), l2;
-        if (inplace) { memcpy(out, in, n); r = par_crypt(k->c, &o, out, out, tw, n, dir); }
+        int ro = family == 1 || family == 2;     /* (their guarded inputs are read-only during the call) */
+        if (inplace) memcpy(out, in, n);
+        if (ro) { if (!inplace && n) guard_readonly(0, 1); guard_readonly(1, 1); }
+        if (inplace) r = par_crypt(k->c, &o, out, out, tw, n, dir);
         else r = par_crypt(k->c, &o, out, in, tw, n, dir);
+        if (ro) { guard_readonly(0, 0); guard_readonly(1, 0); }
         l2 = par_image(k->c, &o, img2, sizeof(img2));
         if (l1 != l2 || memcmp(img1, img2, l1) != 0) {   /* the object is a const argument of the data calls */
             snprintf(sig, sizeof(sig), "C07/%s/%s/data-call-changed-object", cipher_name(k->c), be_name(be));
